@@ -145,3 +145,21 @@ Theorem C15_heap_nonvacuous :
   out_val exp_absent = Some None.
 Proof. exact pointer_heap_nonvacuous. Qed.
 Print Assumptions C15_heap_nonvacuous.
+
+(** ** what the hypotheses exclude (model and code agree; each run on /repo with an ASan probe or listed in DESIGN 11.6) *)
+
+(** [members_named] is needed: an "object" with a member without name (cJSON_AddItemToArray(object, item)):
+    [pointer_encoded_length(current_child->string)] reads through NULL *)
+Theorem C15_heap_keyless_null_deref :
+  MInv exk_heap exk_F /\ exk_root ∈ nodes exk_F /\ subtree_t exk_root [0%nat] = Some exk_member /\
+  small_nodes exk_root /\ ~ members_named exk_root /\
+  out_err (cJSONUtils_FindPointerFromObjectTo nofail exp_junk (Some 1%positive) (Some 2%positive) exk_heap) = Some NullDeref /\
+  PointerDefs.cJSONUtils_FindPointerFromObjectTo (reify (h_str exk_heap) exk_root) [0%nat] = None.
+Proof. exact keyless_member_null_deref. Qed.
+Print Assumptions C15_heap_keyless_null_deref.
+
+(** the never-failing allocator is needed: with the second request refused, [full_pointer[0] = '/'] writes through NULL *)
+Theorem C15_heap_alloc_failure_observed :
+  out_err (cJSONUtils_FindPointerFromObjectTo exp_oracle2 exp_junk (Some 1%positive) (Some 7%positive) exp_heap) = Some NullDeref.
+Proof. exact alloc_failure_null_deref. Qed.
+Print Assumptions C15_heap_alloc_failure_observed.
